@@ -143,6 +143,23 @@ func NewExplorer(prog *ssa.Program, modulePath string, h *ssa.Function, cfg Conf
 func (ex *Explorer) Run() {
 	ex.work = [][]Decision{nil}
 	var wg sync.WaitGroup
+	if ex.cfg.Verbose {
+		done := make(chan struct{})
+		defer close(done)
+		go func() {
+			t0 := time.Now()
+			for {
+				select {
+				case <-done:
+					return
+				case <-time.After(5 * time.Second):
+					ex.mu.Lock()
+					fmt.Fprintf(os.Stderr, "[%s %.0fs] paths=%d pending=%d active=%d ends=%v\n", ex.name, time.Since(t0).Seconds(), ex.Paths, len(ex.work), ex.active, ex.Ends)
+					ex.mu.Unlock()
+				}
+			}
+		}()
+	}
 	for i := 0; i < ex.cfg.Workers; i++ {
 		wg.Add(1)
 		go func() {
@@ -241,7 +258,7 @@ func (ex *Explorer) runPath(solver *Solver, prefix []Decision) (res *PathResult,
 	solver.Reset()
 	res = &PathResult{funcs: map[*ssa.Function]bool{}, stubs: map[string]bool{}, asserts: map[string]*assertStat{}}
 	m := &Machine{ex: ex, prog: ex.prog, solver: solver, prefix: append([]Decision{}, prefix...), globals: map[*ssa.Global]*Val{},
-		res: res, methods: map[types.Type]map[string]*ssa.Function{}, locks: map[*Val]int{}, stash: map[string]Val{}}
+		res: res, methods: map[types.Type]map[string]*ssa.Function{}, locks: map[*Val]int{}, stash: map[string]Val{}, facts: facts{}, memo: map[string]bool{}}
 	defer func() {
 		more = m.newWork
 		steps = m.steps
@@ -488,6 +505,27 @@ func init() {
 			}
 			m.caseTag = append(m.caseTag, s)
 			return nil
+		},
+		"verifEqBytes": func(m *Machine, fr *frame, a []Val) Val {
+			x, _ := a[0].(Slice)
+			y, _ := a[1].(Slice)
+			return strEq(&SymStr{B: x}, &SymStr{B: y})
+		},
+		"verifAnd": func(m *Machine, fr *frame, a []Val) Val {
+			return fromTerm(mkAnd(boolTerm(a[0]), boolTerm(a[1])))
+		},
+		"verifOr": func(m *Machine, fr *frame, a []Val) Val {
+			return fromTerm(mkOr(boolTerm(a[0]), boolTerm(a[1])))
+		},
+		"verifIteInt": func(m *Machine, fr *frame, a []Val) Val {
+			c := boolTerm(a[0])
+			if c.IsConst() {
+				if c.K != 0 {
+					return a[1]
+				}
+				return a[2]
+			}
+			return fromTerm(mkIte(c, toTermW(a[1], 64, true), toTermW(a[2], 64, true)))
 		},
 		"verifTier": func(m *Machine, fr *frame, a []Val) Val { return int64(m.ex.cfg.Tier) },
 		"verifSymbolic": func(m *Machine, fr *frame, a []Val) Val { return true },
